@@ -11,10 +11,10 @@ echo "== $(date -u +%FT%TZ) confirm $ID against /repo $(git -C /repo log --forma
 git -C $WT apply $D/patch.diff && echo "patch applies: yes" || { echo "patch applies: NO"; exit 1; }
 ORIG=$(grep -o '/tmp/wt/[a-z0-9_]*' $D/demo.py | head -1)
 sed "s|${ORIG:-/nonexistent}|$WT|g" $D/demo.py > $WT/demo.py
-( cd $WT && PYTHONPATH=$WT OPENMDAO_REPORTS=0 timeout 1800 /venv/bin/python -W ignore demo.py > $WT/demo_with.out 2>&1 ); rc1=$?
+( cd $WT && PYTHONPATH=$WT OPENMDAO_REPORTS=0 timeout 1800 /venv/bin/python ${PYWARN--W ignore} demo.py > $WT/demo_with.out 2>&1 ); rc1=$?
 echo "demo with change: exit $rc1 (expected 1) :: $(tail -2 $WT/demo_with.out | tr '\n' ' ' | cut -c1-300)"
 /verif/tools/baseline.sh $WT 2>&1 | grep -v condarc | tail -4
 git -C $WT checkout -q -- openaerostruct
-( cd $WT && PYTHONPATH=$WT OPENMDAO_REPORTS=0 timeout 1800 /venv/bin/python -W ignore demo.py > $WT/demo_without.out 2>&1 ); rc0=$?
+( cd $WT && PYTHONPATH=$WT OPENMDAO_REPORTS=0 timeout 1800 /venv/bin/python ${PYWARN--W ignore} demo.py > $WT/demo_without.out 2>&1 ); rc0=$?
 echo "demo without change: exit $rc0 (expected 0) :: $(tail -1 $WT/demo_without.out | cut -c1-200)"
 } 2>&1 | tee -a $D/confirm.log
